@@ -658,3 +658,40 @@ func VerifC15IntFloat() {
 	verifAssert(err == nil && ge == (want >= 0), "C15/greater-or-equal-disagrees-with-numeric-order "+label)
 	verifCover("C15/intfloat/end")
 }
+
+// VerifC15Timestamps: time stamps (finite set of spellings: UTC, numeric zone offsets on either side, date only) —
+// the sort comparator is antisymmetric and follows the instants, and `<`, `<=`, `>`, `>=` agree with it; two
+// spellings of one instant are equal under all of them.
+func VerifC15Timestamps() {
+	stamps := []string{"2021-01-01T00:00:00Z", "2021-01-01T05:30:00+05:30", "2020-12-31T17:00:00-07:00", "2021-01-01T00:00:00+00:00",
+		"2021-01-01T00:00:01Z", "2020-12-31T23:59:59Z", "2021-01-01", "2021-01-01T01:00:00+01:00", "2021-01-02T00:00:00+13:00"}
+	secs := []int64{0, 0, 0, 0, 1, -1, 0, 0, 39600}
+	i, j := verifChoice("x", len(stamps)), verifChoice("y", len(stamps))
+	x := &CandidateNode{Kind: ScalarNode, Tag: "!!timestamp", Value: stamps[i]}
+	y := &CandidateNode{Kind: ScalarNode, Tag: "!!timestamp", Value: stamps[j]}
+	label := stamps[i] + " vs " + stamps[j]
+	cxy := c15Sign(sortableNodeArray(nil).compare(x, y, vRFC3339))
+	cyx := c15Sign(sortableNodeArray(nil).compare(y, x, vRFC3339))
+	want := 0
+	if secs[i] < secs[j] {
+		want = -1
+	} else if secs[i] > secs[j] {
+		want = 1
+	}
+	verifAssert(cxy == -cyx, "C15/antisymmetric timestamps "+label)
+	verifAssert(cxy == want, "C15/agrees-with-instants timestamps "+label)
+	ctx := Context{}
+	ctx.SetDateTimeLayout(vRFC3339)
+	for _, op := range []struct {
+		name           string
+		orEqual, great bool
+		want           bool
+	}{{"<", false, false, want < 0}, {"<=", true, false, want <= 0}, {">", false, true, want > 0}, {">=", true, true, want >= 0}} {
+		got, err := compareScalars(ctx, compareTypePref{OrEqual: op.orEqual, Greater: op.great}, x, y)
+		verifAssert(err == nil, "C15/compare-error timestamps "+op.name+" "+label)
+		if err == nil {
+			verifAssert(got == op.want, "C15/compare-op-disagrees-with-instants timestamps "+op.name+" "+label)
+		}
+	}
+	verifCover("C15/timestamps/end")
+}
